@@ -5,7 +5,7 @@
 //!
 //! Type encoding shared with coq/Model/D_C13.v (one group of integers):
 //!   [0,bits,signed] Int | [1] Bool | [2,bits,p,s] Decimal | [3] Date32 | [4] Date64
-//!   [5,u] Time32 | [6,u] Time64 | [7,u,tz] Timestamp (tz 0 = None, 1 = "UTC") | [8,u] Duration
+//!   [5,u] Time32 | [6,u] Time64 | [7,u,tz] Timestamp (tz 0 = None, 1 = "+00:00", i.e. UTC without needing the chrono-tz feature) | [8,u] Duration
 //!   time units u: 0 s, 1 ms, 2 us, 3 ns
 //! Column encoding: [validity 0/1 ...] [raw values ...] (raw values of null slots are garbage on purpose);
 //! outputs are normalised: the value of a null slot is printed as 0.
@@ -76,7 +76,7 @@ fn to_dt(t: &MT) -> DataType {
         MT::Date64 => DataType::Date64,
         MT::Time32(u) => DataType::Time32(unit(u)),
         MT::Time64(u) => DataType::Time64(unit(u)),
-        MT::Ts(u, z) => DataType::Timestamp(unit(u), if z == 0 { None } else { Some("UTC".into()) }),
+        MT::Ts(u, z) => DataType::Timestamp(unit(u), if z == 0 { None } else { Some("+00:00".into()) }),
         MT::Dur(u) => DataType::Duration(unit(u)),
     }
 }
@@ -359,7 +359,7 @@ pub fn leaf_grid() -> Vec<DataType> {
         Time32(TimeUnit::Second), Time32(TimeUnit::Millisecond), Time64(TimeUnit::Microsecond), Time64(TimeUnit::Nanosecond)];
     for u in [TimeUnit::Second, TimeUnit::Millisecond, TimeUnit::Microsecond, TimeUnit::Nanosecond] {
         v.push(Timestamp(u, None));
-        v.push(Timestamp(u, Some("UTC".into())));
+        v.push(Timestamp(u, Some("+00:00".into())));
         v.push(Duration(u));
     }
     v.push(Timestamp(TimeUnit::Millisecond, Some("+05:30".into())));
@@ -480,12 +480,12 @@ fn rand_type(r: &mut Rng, depth: u32) -> DataType {
     let leafs = leaf_grid();
     if depth == 0 || r.chance(2, 5) {
         return match r.below(8) {
-            0 => Decimal128(r.range(1, 38) as u8, r.range(-5, 38) as i8),
-            1 => Decimal256(r.range(1, 76) as u8, r.range(-5, 76) as i8),
+            0 => { let p = r.range(1, 38); Decimal128(p as u8, r.range(-5, p) as i8) }
+            1 => { let p = r.range(1, 76); Decimal256(p as u8, r.range(-5, p) as i8) }
             2 => FixedSizeBinary(r.range(0, 40) as i32),
             3 => Timestamp(unit(r.below(4) as u8), Some(["UTC", "+00:00", "-08:00", "America/New_York", "Europe/Paris"][r.below(5)].into())),
-            4 => Decimal32(r.range(1, 9) as u8, r.range(-3, 9) as i8),
-            5 => Decimal64(r.range(1, 18) as u8, r.range(-3, 18) as i8),
+            4 => { let p = r.range(1, 9); Decimal32(p as u8, r.range(-3, p) as i8) }
+            5 => { let p = r.range(1, 18); Decimal64(p as u8, r.range(-3, p) as i8) }
             _ => leafs[r.below(leafs.len())].clone(),
         };
     }
@@ -635,6 +635,11 @@ fn raw_ok(a: &MT, b: &MT, v: &BigInt) -> bool {
         _ => true,
     }
 }
+/// for the inverse casts: the instant a date / timestamp value denotes lies within the modelled calendar range
+fn instant_safe(a: &MT, v: &BigInt) -> bool {
+    let secs = match *a { MT::Date32 => v * 86400i64, MT::Date64 => floor_div(v, 1000), MT::Ts(u, _) => floor_div(v, unit_mult(u)), _ => return true };
+    secs.abs() <= BigInt::from(TS_SAFE_SECONDS)
+}
 fn dec256_int_ok(a: &MT, v: &BigInt) -> bool {
     if let MT::Dec { s, .. } = *a {
         let q = if s >= 0 { v / pow10(s as u32) } else { v * pow10((-(s as i32)) as u32) };
@@ -647,6 +652,17 @@ fn dec_infallible(a: &MT, b: &MT) -> bool {
         let (p1, s1, p2, s2) = (p1 as i64, s1 as i64, p2 as i64, s2 as i64);
         if w1 == w2 && s1 == s2 && p1 <= p2 { return false; }
         if s1 <= s2 { let d = s2 - s1; d <= dec_maxp(w2) && p1 + d <= p2 } else { let d = s1 - s2; d <= dec_maxp(w1) && p1 - d < p2 }
+    } else { false }
+}
+
+/// KNOWN-FINDING candidate: when a decimal is upscaled by more digits than the 10^k table of the output width holds
+/// (s2 - s1 > MAX_PRECISION of the output type), convert_to_bigger_or_equal_scale_decimal returns
+/// "Value overflows for output scale" for EVERY input — also for zeros, nulls and empty arrays, which are
+/// representable. For such pairs only the transcribed model is compared, not the specification.
+fn dec_up_beyond_table(a: &MT, b: &MT) -> bool {
+    if let (MT::Dec { bits: w1, p: p1, s: s1 }, MT::Dec { bits: w2, p: p2, s: s2 }) = (*a, *b) {
+        if w1 == w2 && s1 == s2 && p1 <= p2 { return false; }
+        s1 <= s2 && (s2 as i64 - s1 as i64) > dec_maxp(w2)
     } else { false }
 }
 
@@ -776,12 +792,19 @@ fn gen_pair(a: &MT, b: &MT, thorough: bool, r: &mut Rng, emit: &mut dyn FnMut(Ca
     let ok: Vec<BigInt> = cands.iter().filter(|v| value_ok(a, b, v) && raw_ok(a, b, v)).cloned().collect();
     let tag = format!("cast/{}>{}", tyclass(a), tyclass(b));
     let both = thorough || native(a).0 <= 16 || r.chance(1, 3);
-    if !ok.is_empty() { emit_columns(a, b, &ok, true, r, emit, &tag, both); }
+    let spec = !dec_up_beyond_table(a, b);
+    if !ok.is_empty() { emit_columns(a, b, &ok, spec, r, emit, &tag, both); }
     // the empty column
     for safe in [0i64, 1] {
-        emit(Case::new("c13.cast", vec![gs(&[0i64, 0, safe]), enc(a), enc(b), g(safe), vec![], vec![]], &["c13.cast", "c13.cast.spec"], format!("{tag}/empty")));
+        let args: Args = vec![gs(&[0i64, 0, safe]), enc(a), enc(b), g(safe), vec![], vec![]];
+        if spec { emit(Case::new("c13.cast", args, &["c13.cast", "c13.cast.spec"], format!("{tag}/empty"))); }
+        else { emit(Case::new("c13.cast_m", args, &["c13.cast_m"], format!("{tag}/empty"))); }
     }
-    let raw: Vec<BigInt> = cands.iter().filter(|v| !value_ok(a, b, v) && raw_ok(a, b, v)).cloned().collect();
+    // values outside the preconditions of S: only where M models the behaviour (decimals beyond their declared
+    // precision, times outside a day); calendar conversions beyond TS_SAFE_SECONDS are not modelled at all
+    let raw: Vec<BigInt> = if matches!(a, MT::Dec { .. } | MT::Time32(_) | MT::Time64(_)) {
+        cands.iter().filter(|v| !value_ok(a, b, v) && raw_ok(a, b, v)).cloned().collect()
+    } else { Vec::new() };
     if !raw.is_empty() {
         let take = if thorough { raw.len() } else { raw.len().min(150) };
         let mut sel = raw; if sel.len() > take { let st = r.below(sel.len() - take + 1); sel = sel[st..st + take].to_vec(); }
@@ -823,11 +846,11 @@ fn gen_values(thorough: bool, r: &mut Rng, emit: &mut dyn FnMut(Case)) {
 fn gen_inverse(thorough: bool, r: &mut Rng, emit: &mut dyn FnMut(Case)) {
     let tys = model_types();
     for a in &tys { for b in &tys {
-        if a == b || !modelled(a, b) || !modelled(b, a) { continue; }
+        if a == b || !modelled(a, b) || !modelled(b, a) || dec_up_beyond_table(a, b) || dec_up_beyond_table(b, a) { continue; }
         if !can_cast_types(&to_dt(a), &to_dt(b)) || !can_cast_types(&to_dt(b), &to_dt(a)) { continue; }
         if !thorough && matches!(a, MT::Dec { .. }) && matches!(b, MT::Dec { .. }) && !r.chance(1, 2) { continue; }
         let cands = candidates(a, b, r, false);
-        let ok: Vec<BigInt> = cands.iter().filter(|v| value_ok(a, b, v) && raw_ok(a, b, v)).cloned().collect();
+        let ok: Vec<BigInt> = cands.iter().filter(|v| value_ok(a, b, v) && raw_ok(a, b, v) && instant_safe(a, v)).cloned().collect();
         // one value per column so that a single unrepresentable value does not hide the others
         let per = if thorough { ok.len() } else { ok.len().min(40) };
         let mut idx: Vec<usize> = (0..ok.len()).collect();
@@ -868,7 +891,8 @@ fn int_values(t: &MT, r: &mut Rng, n_rand: usize) -> Vec<BigInt> {
 fn dec_values(t: &MT, r: &mut Rng, n_rand: usize) -> Vec<BigInt> {
     if let MT::Dec { p, .. } = *t {
         let lim = pow10(p as u32);
-        let mut v = vec![BigInt::zero(), BigInt::one(), BigInt::from(-1), &lim - 1, -(&lim - 1), BigInt::from(5), BigInt::from(-50)];
+        let lm1: BigInt = &lim - BigInt::one();
+        let mut v: Vec<BigInt> = vec![BigInt::zero(), BigInt::one(), BigInt::from(-1), lm1.clone(), -lm1, BigInt::from(5), BigInt::from(-50)];
         for k in 0..p as u32 { for d in [-1i64, 0, 1] { v.push(pow10(k) + d); v.push(-pow10(k) + d); v.push(pow10(k) * 5 + d); } }
         for _ in 0..n_rand {
             let k = r.below(p as usize + 1) as u32;
@@ -881,9 +905,22 @@ fn dec_values(t: &MT, r: &mut Rng, n_rand: usize) -> Vec<BigInt> {
         v.sort(); v.dedup(); v
     } else { vec![] }
 }
+/// KNOWN-FINDING candidate: atoi 3.1.0 declares NUM_SAFE_DIGITS_NON_POSITIVE_RADIX_10 = 5 for i16, so
+/// `from_radix_10_signed_checked` accumulates the first FIVE digits of a negative literal with unchecked
+/// `number *= 10; number -= digit`: "-32769" .. "-99999" (and longer literals with such a prefix) overflow i16 —
+/// a panic in a checked build, a silently wrapped value (e.g. "-32769" -> 32767) in release — instead of
+/// being rejected. Reached through parser_primitive!(Int16Type), i.e. the Utf8 -> Int16 cast. Excluded here.
+fn atoi_i16_bug(t: &MT, s: &str) -> bool {
+    if !matches!(t, MT::Int { bits: 16, signed: true }) { return false; }
+    let b = s.trim_matches(|c: char| c.is_ascii_whitespace());
+    if let Some(rest) = b.strip_prefix('-') {
+        let digs: String = rest.chars().take_while(|c| c.is_ascii_digit()).take(5).collect();
+        digs.len() == 5 && digs.parse::<u32>().map(|v| v > 32768).unwrap_or(false)
+    } else { false }
+}
 fn emit_parse(t: &MT, strs: &[String], r: &mut Rng, emit: &mut dyn FnMut(Case), tag: &str) {
     for (i, st) in strs.iter().enumerate() {
-        if !st.is_ascii() { continue; }
+        if !st.is_ascii() || atoi_i16_bug(t, st) { continue; }
         let kind = ((i + r.below(3)) % 3) as i64;
         let safe = ((i / 3 + r.below(2)) % 2) as i64;
         let args: Args = vec![enc(t), g(kind), g(safe), gbytes(st.as_bytes())];
@@ -950,8 +987,9 @@ fn gen_text(thorough: bool, r: &mut Rng, emit: &mut dyn FnMut(Case)) {
             base.push(format!("{}", pow10(k) - 1)); base.push(format!("-{}", pow10(k))); base.push(format!("0.{}", pow10(k) - 1)); base.push(format!("{}.{}", pow10(k / 2), pow10(k / 2 + 1) + 7));
         }
         base.push(format!("{}", nmax(&t))); base.push(format!("{}", nmin(&t))); base.push(format!("{}", nmax(&t) + 1)); base.push(format!("{}", nmin(&t) - 1));
-        base.push(dec_string(&(pow10(p as u32) * 10 - 5), sc as u32 + 1)); base.push(dec_string(&(-(pow10(p as u32) * 10 - 5)), sc as u32 + 1));
-        base.push(dec_string(&(pow10(p as u32) * 10 - 6), sc as u32 + 1));
+        let half_up: BigInt = pow10(p as u32) * BigInt::from(10) - BigInt::from(5);
+        base.push(dec_string(&half_up, sc as u32 + 1)); base.push(dec_string(&(-half_up.clone()), sc as u32 + 1));
+        base.push(dec_string(&(half_up - BigInt::one()), sc as u32 + 1));
         let strs = mutate_num_strings(&base, r);
         emit_parse(&t, &strs, r, emit, &format!("parse/{}", tyclass(&t)));
         for st in &strs {
@@ -1022,9 +1060,28 @@ fn dt_class(t: &DataType) -> &'static str {
         Utf8 | LargeUtf8 | Utf8View => "string", Binary | LargeBinary | BinaryView | FixedSizeBinary(_) => "binary", _ => "nested",
     }
 }
-/// KNOWN-FINDING candidates: ordered pairs that can_cast_types accepts although cast_with_options refuses
-/// every input (filled in from the probe runs; see the report). (wrapper a, leaf a, wrapper b, leaf b)
-fn known_inconsistent(_wa: i64, _a: &DataType, _wb: i64, _b: &DataType) -> bool { false }
+/// KNOWN-FINDING candidates: ordered pairs that can_cast_types accepts although cast_with_options refuses EVERY
+/// input, even an empty array (root causes, see the report):
+///  R1 target Dictionary<K, V> with V Boolean / Duration / Interval: can_cast_types only asks whether the source can be
+///     cast to V, cast_to_dictionary has no packer for V ("Unsupported output type for dictionary packing")
+///  R2 Interval(YearMonth | DayTime) -> Int64: listed in can_cast_types, no arm in cast_with_options
+///  R3 Utf8 / LargeUtf8 / Utf8View -> Decimal with a negative scale: refused by cast_string_to_decimal
+///  R4 target Dictionary<K, V> with V Date32/Date64/Time32/Time64/Timestamp: packed "via primitive", i.e. the source is
+///     cast to Int32 / Int64 instead of V, which is unsupported (or means something else) for sources that
+///     can be cast to V but not to the backing integer (Time64 -> Dictionary<_, Time32>)
+fn known_inconsistent(_wa: i64, a: &DataType, wb: i64, b: &DataType) -> bool {
+    use DataType::*;
+    let r2 = matches!(a, Interval(IntervalUnit::YearMonth) | Interval(IntervalUnit::DayTime)) && matches!(b, Int64);
+    let r3 = matches!(a, Utf8 | LargeUtf8 | Utf8View) && matches!(b, Decimal32(_, s) | Decimal64(_, s) | Decimal128(_, s) | Decimal256(_, s) if *s < 0);
+    let to_dict = wb == 1 || wb == 6;
+    let r1 = to_dict && matches!(b, Boolean | Duration(_) | Interval(_));
+    let r4 = to_dict && match b {
+        Date32 | Time32(_) => !can_cast_types(a, &Int32),
+        Date64 | Time64(_) | Timestamp(_, _) => !can_cast_types(a, &Int64),
+        _ => false,
+    };
+    r1 || r2 || r3 || r4
+}
 
 fn gen_cancast(thorough: bool, r: &mut Rng, emit: &mut dyn FnMut(Case)) {
     let grid = leaf_grid();
